@@ -91,6 +91,7 @@ func (e *Executor) Execute(proposals []*proposal.Proposal) error {
 		messageID := batch.proposals[0].MessageID
 
 		b := batch
+		i := i
 		p.Go(func() error {
 			propHash, err := e.bridge.ProposalsHash(b.proposals)
 			if err != nil {
@@ -98,7 +99,7 @@ func (e *Executor) Execute(proposals []*proposal.Proposal) error {
 			}
 
 			sessionID := fmt.Sprintf("%s-%d", messageID, i)
-			log.Info().Str("messageID", batch.proposals[0].MessageID).Msgf("Starting session with ID: %s", sessionID)
+			log.Info().Str("messageID", messageID).Msgf("Starting session with ID: %s", sessionID)
 
 			msg := big.NewInt(0)
 			msg.SetBytes(propHash)
